@@ -143,10 +143,63 @@ def run(ctx):
             rt = err_name(e)
         if rt != "ok":
             ctx.report(f"a {len(p)}-octet plaintext (within the limit) does not round-trip with zip=DEF: {rt}", {"plaintext": label, "n": len(p)}, "roundtrip:structured")
+    header_lookalikes(ctx, z)
     inflate_contract(ctx)
     end_to_end(ctx)
     produced_stream(ctx)
     memory(ctx)
+
+
+def header_lookalikes(ctx, z):
+    """A raw DEFLATE stream may begin with ANY two octets - also with ones that pass for (part of) a zlib header: a valid
+    FCHECK (the 16-bit value is a multiple of 31), compression method 8 in the low nibble, 0x78 first.  Short texts with
+    every two-character prefix, stored blocks of every short length, and other compression levels are compressed by the
+    reference, bucketed by the first two octets of the raw stream, and every stream in a look-alike bucket (plus a sample
+    of the rest) must decompress to its plaintext - only the exact default header 78 9C selects the zlib framing."""
+    import string
+    rng = ctx.rng
+    cands = []
+    chars = string.printable[:95]
+    for a in chars:
+        for b in chars:
+            cands.append((a + b + "nfirmation code: 493021").encode())
+    for n in range(1, 400):
+        cands.append(bytes((n * 7 + i) % 251 for i in range(n)))
+    buckets = {}
+    for p in cands:
+        for level in (6, 1, 9, 0):
+            c = zlib.compressobj(level, zlib.DEFLATED, -15)
+            raw = c.compress(p) + c.flush()
+            if len(raw) < 2:
+                continue
+            first2 = raw[:2]
+            v = int.from_bytes(first2, "big")
+            look = []
+            if v % 31 == 0:
+                look.append("fcheck")
+            if first2[0] & 0x0F == 8 and first2[0] >> 4 <= 7:
+                look.append("cm8")
+            if first2[0] == 0x78:
+                look.append("78")
+            if first2 == b"\x78\x9c":
+                continue        # by construction indistinguishable from a zlib-framed stream: the documented reading applies
+            buckets.setdefault("+".join(look) or "plain", []).append((p, raw))
+    chosen = []
+    for name, items in buckets.items():
+        if name == "plain":
+            chosen += [(name, *it) for it in rng.sample(items, min(len(items), 300 if ctx.tier == "quick" else 3000))]
+        else:
+            chosen += [(name, *it) for it in (items if ctx.tier != "quick" else rng.sample(items, min(len(items), 400)))]
+    for name, p, raw in chosen:
+        try:
+            res = ("ok", z.decompress(raw))
+        except Exception as e:  # noqa: BLE001
+            res = ("err", err_name(e))
+        ctx.count("header-lookalike", (name, raw), True, f"{name}:{res[0] if res[0] == 'ok' and res[1] == p else 'FAIL'}")
+        if res != ("ok", p):
+            ctx.report(f"a raw DEFLATE stream of a {len(p)}-octet plaintext beginning {raw[:2].hex()} (looks like a zlib header by: {name}) is not accepted: "
+                       f"{res[1] if res[0] == 'err' else 'different plaintext'}", {"plaintext": p.hex()[:200], "stream": raw.hex()[:400], "class": name}, f"lookalike:{name}")
+    ctx.extra["lookalike_buckets"] = {k_: len(v_) for k_, v_ in buckets.items()}
 
 
 def inflate_contract(ctx):
